@@ -20,6 +20,7 @@ LEVEL_TEXT = (
     "binds a local for CPython's symtable is known to the closure analysis; closure cells are never replaced by plain "
     "values; the interpreter state switched for a call / class body / decorator evaluation is restored on every exit; "
     "scope search is innermost-first; name lookup order and reserved-keyword table are as documented"
+    "; a nested definition is found in every statement position and every parameter kind becomes a closure cell when an inner scope exists (host symtable as oracle)"
 )
 LEVEL_NOTE = (
     "trusted: host inspect/symtable as oracle for binding and local-name rules; the abstract evaluator; exceptions are "
